@@ -6,6 +6,7 @@ from ..cfgq import Scope, returned_nodes, bool_taken, iter_chain, closure_id_of,
 from ..exprs import strip, short_callee, show, leaf_name, walk, origin_desc, mkproj
 from ..facts import AnalysisError
 from ..formulas import LeafMap, compare, fallback_chain, updates, FNormalizer
+from ..mir import callee_name
 from .. import tables as TB
 from .c06 import local_defs
 from .c08 import closure_return
@@ -445,6 +446,8 @@ def run(ctx):
         ctx.violation("c11.term", "c11.term|compactness", "compactness is not `gross volume / exposed area` guarded against a zero area", ep.loc())
     check_envelope_membership(ctx, prog, ep, root)
     check_floor_either_side(ctx, prog)
+    check_sizes_not_rounded(ctx, prog)
+    check_height_net_cover(ctx, prog)
     # D3 ventilation siblings
     gv = g["global_ventilation_rate"]
     mv = prog.method("types::model::Model", None, "global_ventilation_rate")
@@ -621,6 +624,113 @@ def guarded_quotient_return(prog, sc, clnode, elem):
                 ((origin_desc(strip(c[2])) == den and strip(c[3])[0] == "k") or (origin_desc(strip(c[3])) == den and strip(c[2])[0] == "k")):
             return q
     return None
+
+
+def check_sizes_not_rounded(ctx, prog, rule="c11.term"):
+    """"The reference area and the volumes ... scale with the multiplier" and are reported to two decimals: the rounding belongs to the totals.  A space's
+    floor area and net height enter products (area x height x multiplier); rounding them first puts an error of up to 0.005 m2 into a product with a
+    multiplier of tens and a height of metres (561.24 m2 becomes 561.00 with a multiplier of 50).  So neither Space::area nor Space::height_net may hand
+    back a rounded value, and the per-space figures EnergyProps keeps may not be rounded either."""
+    for nm in ("area", "height_net"):
+        f = prog.method("types::space::Space", None, nm)
+        sc = Scope(prog, f)
+        rns = returned_nodes(f.body)
+        vals = []
+        for _, rn in rns:
+            v = strip(sc._rw(rn))
+            if v[0] == "var":
+                from .c06 import local_defs
+                for l, ds in local_defs(sc, v[2]).items():
+                    vals += [d[1] for d in ds]
+            vals.append(v)
+        rounded = [v for v in vals if v[0] == "call" and short_callee(v[1]) in ("fround2", "fround3", "round", "trunc", "floor", "ceil")]
+        key = "%s|Space::%s|unrounded" % (rule, nm)
+        if rounded:
+            ctx.violation(rule, key, "Space::%s returns %s: the value is rounded before it is multiplied by the height and the space multiplier, so the totals are off by "
+                          "up to 0.005 x height x multiplier and no longer scale" % (nm, show(rounded[0])[:60]), f.loc())
+        else:
+            ctx.ok(rule, key, "Space::%s hands back the unrounded value (the totals are rounded once)" % nm, f.loc())
+
+
+def check_height_net_cover(ctx, prog, rule="c11.scope"):
+    """"the net height discounts the slab above": the element that covers a space is its own TOP element (roof, or ceiling declared from this side) or a BOTTOM
+    element of the space above that names this space as adjacent - whatever its boundary type.  The `find` predicate of Space::height_net is evaluated over
+    (own element, adjacent = this space, tilt class); any further condition it consults (boundary type, construction ..) is tried both ways and must not matter."""
+    f = prog.method("types::space::Space", None, "height_net")
+    sc = Scope(prog, f)
+    finds = [(b, t) for b, t in f.body.calls() if short_callee(callee_name(t) or "") in ("find", "position", "filter", "find_map") and len(t["args"]) == 2]
+    ctx.require(len(finds) == 1, "Space::height_net: the search for the covering element was not found (%d candidates)" % len(finds))
+    clo = strip(sc.operand(finds[0][1]["args"][1]))
+    cid = closure_id_of(clo)
+    ctx.require(cid in prog.fns, "Space::height_net: the predicate of the search is not a closure")
+    csc = Scope(prog, prog.fns[cid], closure_env(clo), ("elem", "W", ()), sc)
+    TILTS = [v["name"] for v in prog.adt("bemodel::types::common::Tilt")["variants"]]
+    unknown = []
+
+    def make_atom(own, nxt, tilt, extra):
+        def atom(n):
+            n = strip(n)
+            txt = show(n)
+            if n[0] == "un" and n[1] == "Not":
+                v = atom(n[2])
+                return None if v is None else ("0" if v == "1" else "1")
+            if n[0] == "k" and n[1] in ("true", "false"):
+                return "1" if n[1] == "true" else "0"
+            if n[0] == "discr" and "tilt" in txt:
+                return str(TILTS.index(tilt))
+            if n[0] == "bin" and n[1] in ("BitAnd", "BitOr"):
+                x, y = atom(n[2]), atom(n[3])
+                if x is None or y is None:
+                    return None
+                return "1" if ((x == "1" and y == "1") if n[1] == "BitAnd" else (x == "1" or y == "1")) else "0"
+            if n[0] == "call" and short_callee(n[1]) in ("eq", "ne") and len(n[2]) == 2:
+                names = [leaf_name(strip(a)) or show(strip(a)) for a in n[2]]
+                res = None
+                if any(x.endswith(".space") for x in names) and any(x.endswith("self.id") for x in names):
+                    res = own
+                elif "next_to" in txt and "self.id" in txt:
+                    res = nxt
+                if res is not None:
+                    return "1" if (res == (short_callee(n[1]) == "eq")) else "0"
+            if n[0] == "call" and short_callee(n[1]) in ("map_or", "is_some_and", "contains") and "next_to" in txt and "self" in txt:
+                return "1" if nxt else "0"
+            if n[0] in ("call", "bin", "discr"):
+                k_ = txt[:70]
+                if k_ not in unknown:
+                    unknown.append(k_)
+                return extra.get(k_, "1")
+            return None
+        return atom
+    bad, dep = [], []
+    ncase = 0
+    for own, nxt, tilt in itertools.product((True, False), (True, False), TILTS):
+        vals = set()
+        # first pass discovers the further conditions, then every combination of them
+        for rnd in range(2):
+            combos = [dict(zip(unknown, c)) for c in itertools.product("01", repeat=len(unknown))] if unknown else [{}]
+            for extra in combos[:16]:
+                at = make_atom(own, nxt, tilt, extra)
+                r = TB.eval_return(csc, at)
+                if isinstance(r, tuple) and r and r[0] == "stuck":
+                    raise AnalysisError("Space::height_net: cannot evaluate %s in the search predicate" % show(r[1])[:80])
+                v = at(r)
+                if v is None:
+                    raise AnalysisError("Space::height_net: the search predicate returns %s: not evaluable" % show(r)[:80])
+                vals.add(v)
+        ncase += 1
+        want = (own and tilt == "TOP") or (nxt and tilt == "BOTTOM")
+        if len(vals) > 1:
+            dep.append((own, nxt, tilt))
+        elif (vals == {"1"}) != want:
+            bad.append("(%s element, %s, %s) -> %s" % ("own" if own else "another space's", "adjacent = this space" if nxt else "not adjacent", tilt, "covers" if vals == {"1"} else "ignored"))
+    key = rule + "|Space::height_net|cover"
+    if dep:
+        ctx.violation(rule, key, "whether an element covers the space also depends on %s (%d of %d cases): a ceiling of another boundary type, declared from the space itself, is "
+                      "no longer discounted, so the net height and the net volumes are too large" % (", ".join(unknown)[:120], len(dep), ncase), f.loc())
+    elif bad:
+        ctx.violation(rule, key, "the covering element is found wrongly on %d of %d cases: %s" % (len(bad), ncase, "; ".join(bad[:3])), f.loc())
+    else:
+        ctx.ok(rule, key, "the covering element is the space's own TOP element or a BOTTOM element of the space above that names it (12 cases, nothing else consulted)", f.loc())
 
 
 def check_model_ventilation(ctx, prog, rule):
